@@ -1,7 +1,7 @@
 (* C17 -- Formatted types parse back to the same type. *)
 From Coq Require Import NArith List Bool.
 Import ListNotations.
-From CXV Require Import Gen.TokTy Parse.Balanced Parse.BalancedThms Parse.Declarator Parse.DeclSpec Parse.DeclThms.
+From CXV Require Import Gen.TokTy Parse.Balanced Parse.BalancedThms Parse.Declarator Parse.DeclSpec Parse.DeclThms Parse.DeclPins.
 Open Scope N_scope.
 
 (* D / decl_toks / params_toks are the token-level mirror of types.py
@@ -34,6 +34,12 @@ Theorem formatter_is_inside_out : forall t outer core,
   D t (P outer core) (starts_pfx outer) = P (layers t ++ outer) core.
 Proof. exact DP_eq. Qed.
 
+(* the code the model mirrors is the pinned one, and the token sets it tests
+   the stream for are the sets the model hard-codes (regenerated on every run) *)
+Theorem parser_side_is_the_modelled_one : decl_sets_ok = true.
+Proof. exact decl_sets_ok_true. Qed.
+
+Print Assumptions parser_side_is_the_modelled_one.
 Print Assumptions format_decl_parses_back.
 Print Assumptions format_parses_back_as_parameter.
 Print Assumptions format_parameters_parse_back.
